@@ -220,9 +220,12 @@ CONVS = {"C16": ["cv"], "C12": ["cv"]}
 MC = {
     # pid: list of (cfg name, constants, invariants, timeout)
     "C06": [("tags3", {"TagNames": '{"tag/a", "tag/b"}', "ConvNames": "{}", "MaxCalls": 3, "MaxViews": 0, "Menu": '"tags"', "Invalid": "FALSE"},
+             ["NeverStale", "GraphWellFormed"]),
+            ("marks", {"TagNames": '{"tag/a", "mark/m"}', "ConvNames": "{}", "MaxCalls": 3, "MaxViews": 0, "Menu": '"tags"', "Invalid": "FALSE"},
              ["NeverStale", "GraphWellFormed"])],
     "C09": [("tags3", {"TagNames": '{"tag/a", "tag/b"}', "ConvNames": "{}", "MaxCalls": 3, "MaxViews": 0, "Menu": '"tags"', "Invalid": "FALSE"},
-             ["NeverStuck", "FlagsMatchJobs"])],
+             ["NeverStuck", "FlagsMatchJobs"]),
+            ("liveness", {"TagNames": '{"tag/a"}', "ConvNames": "{}", "MaxCalls": 2, "MaxViews": 0, "Menu": '"files"', "Invalid": "FALSE"}, [])],
     "C10": [("files", {"TagNames": '{"tag/a"}', "ConvNames": "{}", "MaxCalls": 3, "MaxViews": 2, "Menu": '"files"', "Invalid": "FALSE"},
              ["ViewComplete", "OneIdPerConn"])],
     "C11": [("calls", {"TagNames": '{"tag/a", "mark/m"}', "ConvNames": "{}", "MaxCalls": 3, "MaxViews": 0, "Menu": '"tags"', "Invalid": "TRUE"},
@@ -236,21 +239,40 @@ MC = {
 }
 
 
+MC_THOROUGH = {
+    "C06": [("subs", {"TagNames": '{"tag/a", "tag/b"}', "ConvNames": "{}", "MaxCalls": 3, "MaxViews": 0, "Menu": '"subs"', "Invalid": "FALSE"},
+             ["NeverStale", "GraphWellFormed", "NeverStuck", "FlagsMatchJobs"])],
+    "C16": [("conv-marks-views", {"TagNames": '{"tag/a", "mark/m"}', "ConvNames": '{"cv"}', "MaxCalls": 3, "MaxViews": 1, "Menu": '"conv"', "Invalid": "FALSE"},
+             ["ConvEventually", "NeverStuck", "FlagsMatchJobs", "NoUseAfterFree", "Balanced", "GraphWellFormed", "NeverStale"])],
+    "C09": [("liveness-conv", {"TagNames": '{"tag/a"}', "ConvNames": '{"cv"}', "MaxCalls": 2, "MaxViews": 0, "Menu": '"conv"', "Invalid": "FALSE"}, [])],
+}
+
+
 def model_check(ctx, pid):
     """(C): exhaustive TLC over the bounded model.  A counterexample here is about the model; it is reported in the
     evidence and turned into a schedule by the generator/regression set, never into a verdict."""
     total_d, total_g, notes = 0, 0, []
     if os.environ.get("VERIF_SKIP_MC") == "1":      # ad-hoc debugging only; never set by registered commands
         return 1, 1, [{"skipped": True}]
-    for name, consts, invs in MC.get(pid, []):
+    configs = list(MC.get(pid, []))
+    if not ctx.quick():
+        configs += MC_THOROUGH.get(pid, [])
+    for name, consts, invs in configs:
         cfg = os.path.join(ctx.scratch, "ManagerMC_%s_%s.cfg" % (pid, name))
         with open(cfg, "w") as fh:
-            fh.write(mc_config(name, consts, invs))
+            if name.startswith("liveness"):      # C09: EnvDone ~> Settled under weak fairness of the job steps, no state constraint
+                fh.write(mc_config(name, consts, [], spec="MCFairSpec", props=["Settles"]))
+            else:
+                fh.write(mc_config(name, consts, invs))
         res = run_tlc(ctx, "ManagerMC", os.path.basename(cfg), files=[cfg], workers=12, timeout=900 if ctx.quick() else 3000)
         total_d += res.distinct
         total_g += res.generated
         if res.error:
             raise Infra("model checking %s failed:\n%s" % (name, res.out[-3000:]))
+        if res.invariant_violated or res.temporal_violated or res.action_prop_violated:
+            raise Infra("MODEL-COUNTEREXAMPLE (not a verdict about the code): %s violated in configuration %s of ManagerMC; turn the TLC trace "
+                        "into a schedule (harness/manager/regress.json) and replay it on the real Manager\n%s"
+                        % (res.invariant_violated or "temporal property", name, res.out[-6000:]))
         notes.append({"config": name, "distinct": res.distinct, "generated": res.generated,
                       "invariants": invs, "violated_in_model": res.invariant_violated, "complete": res.finished and not res.invariant_violated})
     return total_d, total_g, notes
